@@ -21,6 +21,15 @@ the compiled crate on every run.  `Inv` is exactly what `from_raw_parts` asserts
 `b` with `b.Inv`" is "from any valid state"; histories of any length follow by induction over
 the operation list (`run_refines`, `Fixed.run_refines`).  `abs` = the live elements oldest
 first.  Only property theorems and non-vacuity examples live in this file.
+
+Indices are `Nat`, so the statements hold for *every* index: `Bounded.get i = none` for all
+`i ≥ len` however large (`no_dead_slot_exposed`; the code tests `index >= len` before any
+addition, so this is also what the machine code does for indices up to `usize::MAX`), and
+`Fixed.get i = abs[i % N]` for all `i`.  For `Fixed` the machine code evaluates
+`(first + index) % len` in `usize`; it agrees with the model exactly when
+`first + index ≤ usize::MAX` — the claimed domain (props/C06.json, assumptions). Beyond it the
+real code overflows (panic with overflow checks, another element without); the harness probes and
+records that on every run.
 -/
 set_option linter.unusedSectionVars false
 set_option linter.unusedSimpArgs false
